@@ -57,6 +57,20 @@ def load_cases():
                  'expect': meta.get('selftest_expect', 'report')}
             cases.append(c)
             ids.add(c['id'])
+    # behaviour-preserving refactorings written by independent sub-agents: every check must stay silent on them
+    rfd = os.path.join(VERIF, 'refactorings')
+    if os.path.isdir(rfd):
+        for rid in sorted(os.listdir(rfd)):
+            pf = os.path.join(rfd, rid, 'patch.diff')
+            if not os.path.exists(pf):
+                continue
+            text = open(pf, encoding='utf-8').read()
+            import re
+            files = sorted(set(re.findall(r'^\+\+\+ b/(\S+)', text, re.M)))
+            c = {'id': 'RF-' + rid, 'patch': 'refactorings/%s/patch.diff' % rid, 'path': ', '.join(files)[:60], 'find': '', 'replace': '',
+                 'origin': 'behaviour-preserving refactoring (sub-agent)', 'expect': 'silent'}
+            cases.append(c)
+            ids.add(c['id'])
     for c in extra_cases.EXTRA:
         if c['id'] in ids:
             raise ValueError('duplicate self-test id %s' % c['id'])
